@@ -2,15 +2,23 @@
    (Gen/c03_constants.v from numbers/constants.py class TransportTuning; Gen/c14_message_id.v from
    messagemanager.py MessageManager._next_message_id).  A change of the source constants or of the successor
    formula regenerates the Gen files and breaks these lemmas; the correspondence streams then look for the failing history. *)
-From Coq Require Import ZArith QArith List.
+From Coq Require Import ZArith QArith List Lia.
 From Verif Require Import Lib.Py.
 From Verif Require Gen.c03_constants Gen.c14_message_id.
 From Verif Require Import Model.C09Stack.
 Open Scope Z_scope.
 Lemma empty_ack_delay_is_source : Qeq (inject_Z EMPTY_ACK_DELAY) (Qmult (c03_constants.tt_EMPTY_ACK_DELAY c03_constants.default_transport_tuning) (inject_Z 1000000)).
 Proof. vm_compute. reflexivity. Qed.
+(* robust against equivalent spellings of the successor in the source (Z.land either way round, or mod 65536) *)
+Ltac mid16 :=
+  cbn [c14_message_id.mmids_message_id fst snd];
+  change 65535 with (Z.ones 16); change 65536 with (2 ^ 16);
+  repeat rewrite (Z.land_comm (Z.ones 16));
+  repeat rewrite Z.land_ones by (vm_compute; discriminate);
+  first [reflexivity | repeat (f_equal; try lia)].
+
 (* the successor the model inlines in send_message, [Z.land 65535 (1 + mid)], is the translated method's *)
 Lemma next_message_id_is_source : forall mid,
   c14_message_id.next_message_id {| c14_message_id.mmids_message_id := mid |}
   = Ok ({| c14_message_id.mmids_message_id := Z.land 65535 (1 + mid) |}, mid).
-Proof. reflexivity. Qed.
+Proof. intros mid. unfold c14_message_id.next_message_id. mid16. Qed.
